@@ -2,7 +2,7 @@
    Only statements, [exact] and [Print Assumptions] live here. *)
 From Coq Require Import List Arith Bool NArith.
 From GV Require Import Base.Result Gen.TokenTypes Gen.Defs Gen.Instr Model.Parser Model.BuilderWL Model.Compile
-  Spec.WfCode Spec.Reloc Proofs.C05.Known Proofs.C05.Bounded Proofs.C05.Refuted Proofs.C20.Bounded Proofs.C20.Refuted Proofs.C05.Operands Proofs.C20.Frame.
+  Spec.WfCode Spec.Reloc Proofs.C05.Known Proofs.C05.Bounded Proofs.C05.Refuted Proofs.C20.Bounded Proofs.C20.Refuted Proofs.C05.Operands Proofs.C05.Jumps Proofs.C20.Frame Proofs.C20.FrameFull.
 Import ListNotations.
 
 (* relocation + frame, bounded: building after another program (initial states
@@ -62,6 +62,20 @@ Definition C20_frame_full_statement : Prop :=
   forall nodes root t init lit r,
     tree_of nodes root = Some t -> ~ Known_C05_K1 init t -> ~ Known_C05_K2 t ->
     compile init lit t = Ok r -> own_code init (code_of_compile r) = true.
+
+(* proved: every jump operand, expression value and the reported entry name jump
+   entries of the new range, and every new jump entry names an instruction of
+   the new range *)
+Theorem C20_frame_full : C20_frame_full_statement.
+Proof.
+  intros nodes root t init lit r Ht Hk1 Hk2 Hc.
+  apply (compile_own_code nodes init lit t r (tree_of_in nodes root t Ht)); [| | exact Hc].
+  - split.
+    + destruct (drops_arms t) eqn:E; [exfalso; apply Hk2; exact E | reflexivity].
+    + destruct (has_empty_body t) eqn:E; [exfalso; apply Hk1; left; exact E | reflexivity].
+  - destruct (empty_after_end init t) eqn:E; [exfalso; apply Hk1; right; exact E | reflexivity].
+Qed.
+Print Assumptions C20_frame_full.
 
 Definition C20_relocation_full_statement : Prop :=
   forall t init lit r,
